@@ -903,3 +903,86 @@ def rule_element(ctx, prop):
         import extract
         rep.floor("AST-typed constructor arguments in map-over-children closures", n, 2 if "luau" in extract.FEATURES[cfg] else 0, cfg)
     return rep
+
+
+def rule_simple_block(ctx, prop):
+    """a block may be collapsed onto one line only if it is one statement (or one last statement): the collapse paths
+    rebuild the body from `stmts().next()` / `last_stmt()` alone"""
+    from paths import Enumerator, TooManyPaths
+    rep = Report(prop, "R-COLLAPSE(count)", "every path on which is_block_simple answers yes has established that the block holds "
+                                            "exactly one statement and no last statement, or no statement at all")
+    for cfg, prog in ctx.programs.items():
+        f = prog.fn("stylua_lib", "formatters::trivia_util::is_block_simple")
+        if not rep.anchor(f is not None, "is_block_simple", cfg):
+            continue
+        try:
+            res = Enumerator(f, summaries=False, track_cmp=True, max_paths=20000).run()
+        except TooManyPaths:
+            rep.anchor(False, "is_block_simple: too many paths", cfg)
+            continue
+
+        def deep(o, depth=0, seen=None):
+            seen = set() if seen is None else seen
+            out = set()
+            if depth > 10 or o is None or is_const(o):
+                return out
+            for r in provenance(f, o, through=None):
+                if r[0] == "call" and r[2] not in seen:
+                    seen.add(r[2])
+                    out.add(r[1])
+                    tt = f.blocks[r[2]]["term"]
+                    if tt["args"]:
+                        out |= deep(tt["args"][0], depth + 1, seen)
+            return out
+        n = 0
+        bad = 0
+        for st in res:
+            v0 = st.vals.get(0)
+            yes = (v0 and v0[0] == "const" and v0[1] is True) or (v0 and v0[0] in ("callres",)) or v0 is None
+            if v0 and v0[0] == "const" and v0[1] is False:
+                continue
+            n += 1
+            hd = {}
+            for k, v in st.hist:
+                hd.setdefault(k, []).append(v)
+            # evidence
+            count_one = False
+            for k, v in st.hist:
+                if k == "cmp":
+                    op, a, b, outcome = v
+                    if (op == "Eq" and outcome) or (op == "Ne" and not outcome):
+                        for x, y in ((a, b), (b, a)):
+                            if is_const(y) and str(y.get("v")) in ("1", "1_usize") and not is_const(x):
+                                cs = deep(x)
+                                if any(c.endswith("Block::stmts") for c in cs) and any(re.search(r"::(count|len)$", c) for c in cs):
+                                    count_one = True
+            answers = []
+            for b_, c_, t_ in st.calls:
+                if re.search(r"Iterator>?::next$", c_) and t_["args"] and any(c.endswith("Block::stmts") for c in deep(t_["args"][0])):
+                    answers += [v for v in hd.get(f"call:{b_}", []) if v in ("Some", "None")]
+            # `block.stmts().next().is_none()` answered yes
+            for b_, c_, t_ in st.calls:
+                m = re.search(r"Option::<.*>::is_(none|some)$|Option::<T>::is_(none|some)$", c_)
+                if m and t_["args"]:
+                    cs = deep(t_["args"][0])
+                    if any(c.endswith("Block::stmts") for c in cs) and any(re.search(r"Iterator>?::next$", c) for c in cs):
+                        want = "none" in c_.split("::")[-1]
+                        for v in hd.get(f"dec:{b_}", []):
+                            if v is want:
+                                answers.append("None")
+                            else:
+                                answers.append("Some")
+            none_first = answers[:1] == ["None"]
+            some_then_none = "Some" in answers and "None" in answers[answers.index("Some"):]
+            ok = count_one or none_first or some_then_none
+            if not ok:
+                bad += 1
+        rep.inst(f"{f.key} yes-paths know the statement count", {"yes_paths": n}, cfg, ok=bad == 0)
+        if bad:
+            rep.violation(f"{f.key} simple-block-without-statement-count",
+                          f"is_block_simple can answer yes on {bad} path(s) that never establish that the block has exactly one "
+                          f"statement (count() == 1, or next() answered Some and then None) or none at all: with "
+                          f"collapse_simple_statement the collapsed body is rebuilt from the first statement only, so the other "
+                          f"statements of the block vanish from the output", f.loc(), cfg)
+        rep.floor("yes-paths of is_block_simple", n, 2, cfg)
+    return rep
